@@ -920,9 +920,10 @@ def write_witnesses(ctx, trace):
             if "F06a" not in best or score > best["F06a"][0]:
                 best["F06a"] = (score, hdr, e)
         if hdr["routine"] == "journal" and e["res"]["ok"] and e["res"]["proj"] not in (hdr["old"]["proj"], hdr["new"]["proj"]):
-            score = (-len(hdr["ops"]),)
-            if "F06b" not in best or score > best["F06b"][0]:
-                best["F06b"] = (score, hdr, e)
+            fid = "F06d" if hdr["ops"][-1] == "wsave" else "F06b"
+            score = (hdr["ops"] == ["rec", "rec", "wsave"], -len(hdr["ops"]), e["disk"][0]["len"] == 0)
+            if fid not in best or score > best[fid][0]:
+                best[fid] = (score, hdr, e)
     for fid, (_, h, e) in best.items():
         lib.save_replay(ctx, f"{fid}_witness", {
             "property": PROP, "finding": fid, "program": {"case": h["def"]},
